@@ -35,7 +35,7 @@ class Edits:
         self.kinds = []
         self.bias = {'fields': set(), 'tags': set(), 'subtypes': set()}
         self.ren = {}            # (ns, nameB) -> nameA
-        self.void_to_required = set()   # (ns, union, tag) changed from Void to a non-nullable type
+        self._void_to_required_defs = []   # (ns, union def, tag) changed from Void to a non-nullable type
         self.n = 0
 
     def fresh(self, base):
@@ -132,7 +132,7 @@ class Edits:
         if g.p(40):
             t = ('nullable', t)
         else:
-            self.void_to_required.add((n, d['name'], tg['name']))
+            self._void_to_required_defs.append((n, d, tg['name']))
         tg['type'] = t
         self.bias['tags'].add((n, d['name'], tg['name']))
         return True
@@ -372,8 +372,10 @@ def histories(draw):
         if costsA.texpr(t) >= values.Costs.INF:
             continue
         itemsA.append((key, t, draw(values.value_for(idxA, costsA, t, fuel=draw(st.integers(0, 2))))))
+    # named as spec A names them (the union may have been renamed before or after the edit)
+    void_to_required = {(n, a_name(ed.ren, n, d['name']), tag) for n, d, tag in ed._void_to_required_defs}
     return {'A': apiA, 'B': apiB, 'kinds': ed.kinds, 'ren': ed.ren, 'ren_inv': ren_inv,
-            'void_to_required': ed.void_to_required, 'itemsB': itemsB, 'itemsA': itemsA}
+            'void_to_required': void_to_required, 'itemsB': itemsB, 'itemsA': itemsA}
 
 
 def exercises_edit(idxA, idxB, ren, t, v):
